@@ -103,6 +103,25 @@ def gen_cases(rng, tier):
                       'tags': {'scenario': 'reload-then-history', 'held_at_request': held_at_request}})
         cases.append({'id': 'S%d.f' % i, 'cfg': newk, 'files': {}, 'hist': ['t10', 'q'] + h2 + tail, 'sub': 'rsim', 'no_compare': True,
                       'role': 'fresh', 'tags': {'scenario': 'fresh'}})
+    # ---- SH: a key is down when the reload is requested and stays down for longer than the one-second fallback, with no other
+    # input in between; every kind of thing a held key can be (key, modifier, layer, virtual key pressed from a tapped key, tap-hold hold)
+    HELD = [('key', 'b', ['d30']), ('modifier', 'lsft', ['d30']), ('layer', '(layer-while-held up)', ['d30']),
+            ('tap-hold', '(tap-hold 0 20 b lctl)', ['d30']), ('virtual-key', '(on-press press-vkey vk)', ['d30', 't3', 'u30']),
+            ('output-chord', 'C-b', ['d30']), ('multi', '(multi lalt c)', ['d30'])]
+    for i, (kindh, act, press) in enumerate(HELD):
+        for hold in (1600, 2500):
+            old = '(defsrc a s)\n(deflayer base %s x)\n(deflayer up _ y)\n(defvirtualkeys vk z)' % act
+            new = '(defsrc a s)\n(deflayer fresh 1 2)\n(deflayer up _ y)\n(defvirtualkeys vk z)'
+            h2 = ['d30', 't5', 'u30', 't5', 'd31', 't5', 'u31', 't5']
+            tail = ['t1500', 'q']
+            hist = ['t2'] + press + ['t20', 'W0,new', 'd%d' % F12, 't3', 'u%d' % F12, 't%d' % hold, 'u30', 't20', 't1300', 't3000', 'q'] + h2 + tail
+            newk = with_reload_key(new, ['lrld', '(on-press release-vkey vk)'] if False else 'lrld')
+            cid = 'SH%d-%d' % (i, hold)
+            cases.append({'id': cid, 'cfg': with_reload_key(old, 'lrld'), 'files': {'new': newk}, 'hist': hist, 'sub': 'rsim',
+                          'no_compare': True, 'role': 'S', 'twin': cid + '.f', 'newfirst': first_layer(newk),
+                          'tags': {'scenario': 'reload-requested-while-held', 'held': kindh, 'hold_ms': hold}})
+            cases.append({'id': cid + '.f', 'cfg': newk, 'files': {}, 'hist': ['t10', 'q'] + h2 + tail, 'sub': 'rsim', 'no_compare': True,
+                          'role': 'fresh', 'tags': {'scenario': 'fresh'}})
     # ---- Z: the zippychord dictionary is part of the configuration: it must be replaced / removed by a reload
     for i in range(nN):
         def zcfg(dic):
